@@ -56,7 +56,11 @@ pub fn fixed_width(tag: u8) -> Option<usize> {
     })
 }
 
-const TEXTS: [&str; 14] = [
+const TEXTS: [&str; 18] = [
+    "\u{FFFD}",
+    "\u{FEFF}bom",
+    "\u{10FFFF}\u{1F600}",
+    "trailing-nul\u{0}",
     "",
     "a",
     "utf-8",
